@@ -279,6 +279,13 @@ def count_errors(y: np.ndarray, home_streak_min: int,
                     continue
             temp_1[idx] = day
 
+        # a streak that is cut off by the end of the season can be too short
+        if is_in_home_streak:
+            if home_streak_len < home_streak_min:
+                errors += (home_streak_min - home_streak_len)
+        elif is_in_away_streak and (away_streak_len < away_streak_min):
+            errors += (away_streak_min - away_streak_len)
+
     # sum up the team games
     games_per_combo: Final[int] = days // (teams - 1)
     for i in range(teams):
